@@ -1345,6 +1345,9 @@ def is_kanji(data):
         code = (next(data_iter) << 8) | next(data_iter)
         if not (0x8140 <= code <= 0x9ffc or 0xe040 <= code <= 0xebbf):
             return False
+        # Second byte of a double-byte Shift JIS character: 0x40 .. 0x7e, 0x80 .. 0xfc
+        if not 0x40 <= code & 0xff <= 0xfc or code & 0xff == 0x7f:
+            return False
     return True
 
 
